@@ -270,6 +270,49 @@ theorem fresh_id_accepted_while_not_full (b : List Int) (h0 : (0 : Int) ∈ b) (
   rw [consume_accepts_iff b hb id]
   exact ⟨hfresh, fun h => by have := h 0 h0; omega⟩
 
+/-- Below capacity the replay buffer is order-independent: any sequence of distinct fresh positive
+ids that fits into the never-written slots is accepted entirely — so however the concurrent frame
+handlers of `readLoop` are serialised, every valid id gets through. -/
+theorem distinct_ids_all_accepted_below_capacity (ids : List Int) : ∀ (b : List Int),
+    ids.Nodup → (∀ x ∈ ids, 0 < x) → (∀ y ∈ b, 0 ≤ y) → (∀ x ∈ ids, x ∉ b) → ids.length ≤ b.count 0 →
+    (runBuf b ids).2 = ids.map (fun _ => true) := by
+  induction ids with
+  | nil => intro b _ _ _ _ _; rfl
+  | cons x rest ih =>
+    intro b hnd hpos hnn hfresh hcap
+    have hx : 0 < x := hpos x (by simp)
+    have hxb : x ∉ b := hfresh x (by simp)
+    have h0 : (0 : Int) ∈ b := by
+      have : 0 < b.count 0 := by simp at hcap; omega
+      exact List.count_pos_iff.mp this
+    have hb : b ≠ [] := by intro e; rw [e] at h0; simp at h0
+    have hacc := fresh_id_accepted_while_not_full b h0 x hx hxb
+    rcases consume_cases b hb x with ⟨hm, _⟩ | ⟨_, k, m, hk, hmin, ⟨_, e⟩ | ⟨_, e⟩⟩
+    · exact absurd hm hxb
+    · rw [e] at hacc; cases hacc
+    · have hm0 : m = 0 := by
+        have h1 := hmin 0 h0
+        have h2 := hnn m (List.mem_iff_getElem?.mpr ⟨k, hk⟩)
+        omega
+      subst hm0
+      have hcnt := count_set_zero b k x hk (by omega)
+      have hnd' := (List.nodup_cons.mp hnd)
+      simp only [runBuf, runBufWith, List.map_cons]
+      have hstep : consume b x = (b.set k x, true) := e
+      rw [show (consume b x).2 = true from by rw [hstep], show (consume b x).1 = b.set k x from by rw [hstep]]
+      have := ih (b.set k x) hnd'.2 (fun y hy => hpos y (by simp [hy]))
+        (fun y hy => by
+          rcases List.mem_or_eq_of_mem_set hy with h | h
+          · exact hnn y h
+          · omega)
+        (fun y hy hyb => by
+          rcases List.mem_or_eq_of_mem_set hyb with h | h
+          · exact hfresh y (by simp [hy]) h
+          · subst h; exact hnd'.1 hy)
+        (by simp at hcap; omega)
+      simp only [runBuf] at this
+      rw [this]
+
 /-- … and once accepted, a second copy of the id is rejected as long as it is still stored. -/
 theorem stored_id_rejected (b : List Int) (id : Int) (h : id ∈ b) : (consume b id).2 = false := by
   have hb : b ≠ [] := by intro e; rw [e] at h; simp at h
